@@ -2,6 +2,11 @@
 From Cel.Model Require Export Wire Arith Compare Macros Parser Refs WireData WireSpec.
 Open Scope string_scope.
 
+(** the context holds exactly the standard functions (hypothesis of C03_refines) *)
+Definition list_eqb_funs (fs : list (str * fdef)) : bool :=
+  Nat.eqb (length fs) (length default_funs) &&
+  forallb (fun p => str_eqb (fst (fst p)) (fst (snd p))) (combine fs default_funs).
+
 Definition bad (why : string) : sexp := tagged "bad-request" [Atom why].
 
 Definition sexp_of_cmp (c : option comparison) : sexp :=
@@ -117,8 +122,9 @@ Definition handle (req : sexp) : sexp :=
                   tagged "lower-mismatch" [sexp_of_expr e; sexp_of_expr (lower t')]
                 else match type_of g' t' with
                      | None => Atom "untyped"
-                     | Some ty => if env_okb g' (env_of c') then tagged "typed" [sexp_of_ty ty]
-                                  else Atom "env-mismatch"
+                     | Some _ => if negb (env_okb g' (env_of c')) then Atom "env-mismatch"
+                                 else if negb (list_eqb_funs (funs c')) then Atom "extra-functions"
+                                 else Atom "typed"
                      end in
               let r := eval c' e in
               tagged "c03" [status; sexp_of_outcome sexp_of_value (fst r);
